@@ -841,6 +841,18 @@ pub fn run(ctx: &Ctx) -> Report {
         }
     }
     let capped = completed < n_jobs as u64;
+    // a few of the cases actually run: the first driven values and the first jobs
+    for v in distinct.iter().take(4) {
+        rep.sample(json!({"driven_port_value": v}));
+    }
+    for (j, c, t) in jobs.iter().take(3) {
+        let n = match j {
+            Job::Values(w) => format!("values:{w}:{}", cfg_name(c, *t)),
+            Job::Params => format!("params:{}", cfg_name(c, *t)),
+            Job::Timing => format!("timing:{}", cfg_name(c, *t)),
+        };
+        rep.sample(json!({"job": n}));
+    }
     rep.set("evaluations", evaluations);
     rep.set("evaluations_by_part", json!(per_part));
     rep.set("states", states);
